@@ -431,9 +431,14 @@ fn gen_hist(prop: &str, rng: &mut Rng) -> (Config, Vec<Op>) {
                 }
                 if f_repeat && rng.chance(1, 40) {
                     // many calls in a row: counters that wrap, idle heuristics, caches that fill up
-                    let n = *rng.pick(&[255usize, 256, 257, 1023, 1024, 1025, 4097]);
-                    let q = g.query(rng, &others);
-                    ops.push(Op::SearchBurst { s, q, n });
+                    // bounded cost: at most about 30 000 record visits per burst, short query
+                    let budget = 30_000 / (g.held.len() + 1);
+                    let sizes: Vec<usize> = [255usize, 256, 257, 1023, 1024, 1025, 4097].iter().cloned().filter(|n| *n <= budget).collect();
+                    if !sizes.is_empty() {
+                        let n = *rng.pick(&sizes);
+                        let q: String = g.query(rng, &others).chars().take(24).collect();
+                        ops.push(Op::SearchBurst { s, q, n });
+                    }
                 }
                 push_search(rng, prop, g, &others, &mut ops, f_repeat);
             }
